@@ -275,9 +275,8 @@ private:
         {
             this->_io_dev.seek( get_offset( y + this->_settings._top_left.y ));
 
-            this->_io_dev.read( reinterpret_cast< byte_t* >( rh.data() )
-                        , _pitch
-                        );
+            io_error_if( this->_io_dev.read( reinterpret_cast< byte_t* >( rh.data() ), _pitch ) != static_cast< std::size_t >( _pitch )
+                       , "Unexpected end of image data." );
 
             byte_manipulator( rh.buffer() );
 
@@ -359,9 +358,8 @@ private:
         {
             this->_io_dev.seek( get_offset( y + this->_settings._top_left.y ));
 
-            this->_io_dev.read( &row.front()
-                        , row.size()
-                        );
+            io_error_if( this->_io_dev.read( &row.front(), row.size() ) != static_cast< std::size_t >( row.size() )
+                       , "Unexpected end of image data." );
 
             image_t img_row( this->_info._width, 1 );
             image_t::view_t v = gil::view( img_row );
@@ -417,9 +415,8 @@ private:
         {
             this->_io_dev.seek( get_offset( y + this->_settings._top_left.y ));
 
-            this->_io_dev.read( &row.front()
-                        , row.size()
-                        );
+            io_error_if( this->_io_dev.read( &row.front(), row.size() ) != static_cast< std::size_t >( row.size() )
+                       , "Unexpected end of image data." );
 
             this->_cc_policy.read( beg
                                  , end
